@@ -126,14 +126,24 @@ func (s *Schema) Rels() []Rel {
 	set := s.buildRels()
 
 	rels := make([]Rel, 0, len(set))
-	for _, rel := range set {
+	for rel := range set {
 		rels = append(rels, rel)
 	}
 
+	// The fields are compared one by one. Concatenating them would make
+	// different relationships (like "ab"+"c" and "a"+"bc") compare as equal,
+	// in which case the order would depend on the iteration order of the map.
 	sort.Slice(rels, func(i, j int) bool {
-		name1 := rels[i].FromType + rels[i].FromName
-		name2 := rels[j].FromType + rels[j].FromName
-		return name1 < name2
+		switch {
+		case rels[i].FromType != rels[j].FromType:
+			return rels[i].FromType < rels[j].FromType
+		case rels[i].FromName != rels[j].FromName:
+			return rels[i].FromName < rels[j].FromName
+		case rels[i].ToType != rels[j].ToType:
+			return rels[i].ToType < rels[j].ToType
+		default:
+			return rels[i].ToName < rels[j].ToName
+		}
 	})
 
 	return rels
@@ -243,13 +253,15 @@ func (s *Schema) Check() []error {
 //
 // The set is built from scratch and nothing is stored in the schema, so the
 // schema can be queried concurrently.
-func (s *Schema) buildRels() map[string]Rel {
-	rels := map[string]Rel{}
+func (s *Schema) buildRels() map[Rel]struct{} {
+	// The normalized relationship itself is the key. Its name (see
+	// Rel.String) cannot be used because names are joined with underscores,
+	// which they can also contain.
+	rels := map[Rel]struct{}{}
 
 	for _, typ := range s.Types {
 		for _, rel := range typ.Rels {
-			relName := rel.String()
-			rels[relName] = rel.Normalize()
+			rels[rel.Normalize()] = struct{}{}
 		}
 	}
 
